@@ -103,3 +103,8 @@ package etype
 //@   requires tagof(e) == typeid("crypto.Des3CbcSha1Kd") ==> len(secret) + len(salt) > 0
 //@   trusted_frame interface frame; implementations delegate to the family functions
 //@   ensures err == nil ==> bytes(k) == et_s2k(tagof(e), bytes(secret), bytes(salt), s2kparams)
+
+//@ func (crypto/etype.EType).GetDefaultStringToKeyParams(e) (r)
+//@   pure
+//@   ensures r == et_defparams(tagof(e))
+//@   trusted_ensures 0 et_defparams names the value returned; the numeric defaults (4096 iterations for the SHA-1 AES types, 32768 for the SHA-2 types) are literals in the six implementations
